@@ -63,7 +63,7 @@ def main():
             flush()
 
     flush()
-    atheris.Setup([sys.argv[0], f"-runs={runs}", f"-seed={seed if seed else 1}", "-max_len=256", "-print_final_stats=0", "-verbosity=0", corpus], one)
+    atheris.Setup([sys.argv[0], f"-runs={runs}", f"-seed={seed if seed else 1}", "-max_len=256", "-print_final_stats=0", "-verbosity=0", f"-artifact_prefix={outdir.rstrip('/')}/", corpus], one)
     atheris.Fuzz()
 
 
